@@ -55,6 +55,7 @@ type ModuleSpec struct {
 
 type Spec struct {
 	Modules []ModuleSpec `json:"modules"`
+	Access  []AccessSpec `json:"access"`
 }
 
 func die(format string, a ...any) {
@@ -750,6 +751,9 @@ func main() {
 	root, out := os.Args[2], os.Args[3]
 	if err := os.MkdirAll(out, 0o755); err != nil {
 		die("%v", err)
+	}
+	for _, as := range spec.Access {
+		genAccess(root, out, as)
 	}
 	for _, ms := range spec.Modules {
 		fset := token.NewFileSet()
